@@ -5,19 +5,23 @@
   material (lists of atoms: space, tab, CR, LF, `#text⏎`) in every gap between two tokens of the grammar, plus an
   optional last comment without line feed. `L.render` is its text, `L.tree` the tree it denotes: name, members in
   source order with every field name and type constructor as written, `Description = L.render` verbatim, and each
-  member documented by `docOf` of the gap in front of it — the block of whole-line comments directly above the member.
+  member documented by the block of whole-line comments directly above the line of its keyword (`L.docs`; for a
+  member that starts on a new line this is `docOf` of the gap in front of it).
 
-  `parse_render_partial` proves: for every layouted description inside the grammar and inside the two layout
-  guards below, the parser model returns exactly `L.tree`. The statement without the guards (`ParseRenderFull`) is
-  FALSE for idl.go as it is; `parse_render_full_fails_*` exhibit the witnesses (the first is the known finding of
-  this property). The guards (all decidable, part of `LIdl.fits`):
-    (1) every member starts on a new line: the gap in front of it contains a line break;
-    (2) the type of an error stands behind spaces/tabs only (idl.go reads it with advanceOnLine).
-  (A third guard of an earlier version — no line break between `interface` and the interface name — is gone since
-  /repo b98cbe2 takes IDL.Doc before skipping that gap; `interface_doc_independent_of_layout_behind_keyword`.)
+  `parse_render` proves: for EVERY layouted description inside the grammar (`LIdl.fits`: names, distinct members, a
+  method, no `??`, an error's parameters are a parenthesised list, comment texts without line feed, and a
+  non-empty gap wherever two words would otherwise merge) the parser model returns exactly `L.tree`. There is no
+  layout guard: every gap may hold any mixture of spaces, tabs, CR, line feeds and comments — also the gap between
+  an error's name and its parameter list, and members may share a line (also behind an error without parameters).
+  (Up to /repo a1069ea two guards were needed, "every member starts on a new line" and "an error's type stands on the
+  line of its name": `readError` skipped only spaces and tabs in front of the optional type and took whatever
+  followed for the type. Since /repo 995dcfd it looks ahead for `(`; the two former counter-witnesses are examples
+  below. A third guard of an earlier version — no line break between `interface` and the interface name — is gone
+  since /repo b98cbe2 takes IDL.Doc before skipping that gap; `interface_doc_independent_of_layout_behind_keyword`.)
   Proof: VarlinkProofs/Lemmas/IdlRender.lean — forward lemmas per reader ("if the input in front of the cursor is the
-  rendering of x followed by a token boundary, the reader returns x and stops behind it"), by induction on gaps,
-  on the layouted type (mutually with field lists) and on the member list; crashes are excluded by C09's totality lemma.
+  rendering of x followed by a token boundary, the reader returns x, stops behind it and has moved the pending
+  documentation as `x.pend` says"), by induction on gaps, on the layouted type (mutually with field lists) and on
+  the member list; crashes are excluded by C09's totality lemma.
 -/
 import Varlink.Idl.Layout
 import Varlink.Extracted.Idl
@@ -43,44 +47,76 @@ theorem source_literals :
        "no methods defined"] := by
   decide
 
-/-- **Parse what was rendered** (partial: inside the two layout guards of `LIdl.fits`): the description is
+/-- **Parse what was rendered**: every description inside the grammar, under every layout in every gap, is
     accepted and the tree is exactly the one the text denotes — interface name, every member in source order, every
     field name and type constructor nested as written, the documentation of each member = the comment block above
     it, the interface documentation = the comment block at the start, the description retained verbatim. -/
-theorem parse_render_partial (L : LIdl) (h : L.fits = true) : New L.render = .ok L.tree :=
+theorem parse_render (L : LIdl) (h : L.fits = true) : New L.render = .ok L.tree :=
   New_render L h
 
-/-- the members come out in source order, also in the lists by kind (which are the sub-sequences of `Members`) -/
+/-- the members come out in source order — kinds, names and types as written —, also in the lists by kind (which
+    are the sub-sequences of `Members`) -/
 theorem members_in_source_order (L : LIdl) (h : L.fits = true) :
+    ∃ t, New L.render = .ok t ∧ t.name = L.name ∧
+      t.members.map (Member.setDoc []) = L.members.map (fun p => p.2.erase []) ∧
+      t.members = L.tree.members ∧
+      t.methods = L.tree.members.filter Member.isMethod ∧
+      t.aliases = L.tree.members.filter Member.isAlias ∧
+      t.errors = L.tree.members.filter Member.isError :=
+  ⟨L.tree, New_render L h, rfl, membersTree_skeleton _ _, rfl, rfl, rfl, rfl⟩
+
+/-- … and when the members start on lines of their own, each member is the layouted member without its layout,
+    documented by `docOf` of the gap in front of it -/
+theorem members_in_source_order_own_lines (L : LIdl) (h : L.fits = true)
+    (hb : ∀ p ∈ L.members, p.1.hasBreak = true) :
     ∃ t, New L.render = .ok t ∧ t.name = L.name ∧
       t.members = L.members.map (fun p => p.2.erase (docOf p.1)) ∧
       t.methods = (L.members.map (fun p => p.2.erase (docOf p.1))).filter Member.isMethod ∧
       t.aliases = (L.members.map (fun p => p.2.erase (docOf p.1))).filter Member.isAlias ∧
-      t.errors = (L.members.map (fun p => p.2.erase (docOf p.1))).filter Member.isError :=
-  ⟨L.tree, New_render L h, rfl, rfl, rfl, rfl, rfl⟩
+      t.errors = (L.members.map (fun p => p.2.erase (docOf p.1))).filter Member.isError := by
+  have e : L.tree.members = L.members.map (fun p => p.2.erase (docOf p.1)) := membersTree_own_lines _ _ hb
+  refine ⟨L.tree, New_render L h, rfl, e, ?_, ?_, ?_⟩ <;> simp only [Idl.methods, Idl.aliases, Idl.errors, e]
 
 /-- the description text is retained verbatim -/
 theorem description_verbatim (L : LIdl) (h : L.fits = true) :
     ∃ t, New L.render = .ok t ∧ t.description = L.render := ⟨L.tree, New_render L h, rfl⟩
 
-/-- **Documentation**: each member's `Doc` is `docOf` of the gap in front of it -/
+/-- **Documentation**: each member's `Doc` is the comment block directly above the line of its keyword (`L.docs`) … -/
 theorem docs_from_block (L : LIdl) (h : L.fits = true) :
+    ∃ t, New L.render = .ok t ∧ t.members.map Member.doc = L.docs :=
+  ⟨L.tree, New_render L h, membersTree_docs _ _⟩
+
+/-- … which, when the members start on lines of their own, is `docOf` of the gap in front of each member: nothing
+    in front of that gap matters -/
+theorem docs_from_block_own_lines (L : LIdl) (h : L.fits = true) (hb : ∀ p ∈ L.members, p.1.hasBreak = true) :
     ∃ t, New L.render = .ok t ∧ t.members.map Member.doc = L.members.map (fun p => docOf p.1) := by
   refine ⟨L.tree, New_render L h, ?_⟩
-  simp only [LIdl.tree, List.map_map]
-  apply List.map_congr_left
-  intro p _
-  obtain ⟨g, m⟩ := p
-  cases m <;> rfl
+  rw [show L.tree.members.map Member.doc = L.docs from membersTree_docs _ _]
+  exact memberDocs_own_lines _ _ hb
+
+/-- a member that starts on a new line: `Doc` is `docOf` of its gap, whatever was pending -/
+theorem doc_of_member_on_own_line (lc : Bytes) (g : Gap) (m : LMember) (r : List (Gap × LMember))
+    (hb : g.hasBreak = true) : (memberDocs lc ((g, m) :: r)).head? = some (docOf g) := by
+  simp [memberDocs, gapPend_break g lc hb]
+
+/-- a member that continues a line (only spaces, tabs, CR in front of it): `Doc` is the block above that line -/
+theorem doc_of_member_on_same_line (lc : Bytes) (g : Gap) (m : LMember) (r : List (Gap × LMember))
+    (hb : g.blank = true) : (memberDocs lc ((g, m) :: r)).head? = some lc := by
+  simp [memberDocs, gapPend, gapDoc_blank g _ hb]
 
 /-- what `docOf` is: whatever stands in the gap up to and including a line feed atom is irrelevant — the
     documentation is that of the lines below it … -/
 theorem docOf_after_newline (pre blk : Gap) : docOf (pre ++ .nl :: blk) = (gapDoc (true, []) blk).2 := by
-  simp [docOf, gapDoc, List.foldl_append, docStep]
+  simp [docOf, gapPend, gapDoc, List.foldl_append, docStep]
+
+/-- … also what was pending in front of the gap … -/
+theorem gapPend_after_newline (lc : Bytes) (pre blk : Gap) :
+    gapPend lc (pre ++ .nl :: blk) = (gapDoc (true, []) blk).2 := by
+  simp [gapPend, gapDoc, List.foldl_append, docStep]
 
 /-- … a trailing comment on the line of the previous token is not documentation … -/
 theorem docOf_trailing_comment (t : Bytes) (blk : Gap) : docOf (.comment t :: blk) = (gapDoc (true, []) blk).2 := by
-  simp [docOf, gapDoc, docStep]
+  simp [docOf, gapPend, gapDoc, docStep]
 
 /-- … indentation does not matter, a whole-line comment adds its text (one optional space after `#` and a CR at the
     end removed) on a new line of the documentation, and a blank line drops what was collected. -/
@@ -92,72 +128,68 @@ theorem gapDoc_line (st : Bool × Bytes) :
 /-- the tree without documentation and description (what "does not depend on layout" refers to) -/
 def skeleton (t : Idl) : Bytes × List Member := (t.name, t.members.map (Member.setDoc []))
 
-/-- **Layout independence**: two layouts (inside the guards) of the same syntax give the same tree — same name, same
-    members in the same order with the same types; if also the comment blocks above the members agree, the same
-    documentation. -/
+/-- **Layout independence**: two layouts of the same syntax give the same tree — same name, same members in the same
+    order with the same types; if also the comment blocks above the members agree, the same documentation. -/
 theorem layout_independent (L1 L2 : LIdl) (h1 : L1.fits = true) (h2 : L2.fits = true)
     (hname : L1.name = L2.name)
     (hsyn : L1.members.map (fun p => p.2.erase []) = L2.members.map (fun p => p.2.erase [])) :
     ∃ t1 t2, New L1.render = .ok t1 ∧ New L2.render = .ok t2 ∧ skeleton t1 = skeleton t2 ∧
-      (L1.members.map (fun p => docOf p.1) = L2.members.map (fun p => docOf p.1) → t1.members = t2.members) := by
+      (L1.docs = L2.docs → t1.members = t2.members) := by
+  have hsk : L1.tree.members.map (Member.setDoc []) = L2.tree.members.map (Member.setDoc []) := by
+    simp only [LIdl.tree, membersTree_skeleton, hsyn]
   refine ⟨L1.tree, L2.tree, New_render L1 h1, New_render L2 h2, ?_, ?_⟩
-  · simp only [skeleton, LIdl.tree, hname, List.map_map, Prod.mk.injEq, true_and]
-    have e : ∀ L : LIdl, L.members.map (Member.setDoc [] ∘ fun p => p.2.erase (docOf p.1))
-        = L.members.map (fun p => p.2.erase []) := by
-      intro L; apply List.map_congr_left; intro p _; exact erase_setDoc p.2 _
-    rw [e L1, e L2, hsyn]
+  · simp only [skeleton, Prod.mk.injEq]
+    exact ⟨hname, hsk⟩
   · intro hdocs
-    simp only [LIdl.tree]
-    -- members are determined by their doc-free form and their doc
-    have key : ∀ (a b : List (Gap × LMember)), a.map (fun p => p.2.erase []) = b.map (fun p => p.2.erase []) →
-        a.map (fun p => docOf p.1) = b.map (fun p => docOf p.1) →
-        a.map (fun p => p.2.erase (docOf p.1)) = b.map (fun p => p.2.erase (docOf p.1)) := by
-      intro a
-      induction a with
-      | nil => intro b hs _; cases b with
-        | nil => rfl
-        | cons _ _ => simp at hs
-      | cons p a ih =>
-        intro b hs hd
-        cases b with
-        | nil => simp at hs
-        | cons q b =>
-          simp only [List.map_cons, List.cons.injEq] at hs hd ⊢
-          refine ⟨?_, ih b hs.2 hd.2⟩
-          obtain ⟨g, m⟩ := p; obtain ⟨g', m'⟩ := q
-          simp only at hs hd ⊢
-          rw [hd.1]
-          cases m <;> cases m' <;> simp_all [LMember.erase]
-    exact key _ _ hsyn hdocs
+    apply members_ext _ _ hsk
+    simp only [LIdl.tree, membersTree_docs]
+    exact hdocs
 
-/-! ### the full statement, and why it is only "partial" -/
+/-- … in particular when the members of both layouts start on lines of their own and the comment blocks in the
+    gaps in front of them agree -/
+theorem layout_independent_own_lines (L1 L2 : LIdl) (h1 : L1.fits = true) (h2 : L2.fits = true)
+    (hname : L1.name = L2.name)
+    (hsyn : L1.members.map (fun p => p.2.erase []) = L2.members.map (fun p => p.2.erase []))
+    (hb1 : ∀ p ∈ L1.members, p.1.hasBreak = true) (hb2 : ∀ p ∈ L2.members, p.1.hasBreak = true)
+    (hdocs : L1.members.map (fun p => docOf p.1) = L2.members.map (fun p => docOf p.1)) :
+    ∃ t, New L1.render = .ok t ∧ ∃ t', New L2.render = .ok t' ∧ t.name = t'.name ∧ t.members = t'.members := by
+  obtain ⟨t1, t2, e1, e2, hsk, hm⟩ := layout_independent L1 L2 h1 h2 hname hsyn
+  refine ⟨t1, e1, t2, e2, congrArg Prod.fst hsk, hm ?_⟩
+  simp only [LIdl.docs]
+  rw [memberDocs_own_lines _ _ hb1, memberDocs_own_lines _ _ hb2, hdocs]
 
-/-- the grammar alone: `LIdl.fits` without the two layout guards -/
-def fitsGrammar (L : LIdl) : Bool :=
-  L.g0.wf && L.ig1.wf && !L.ig1.isEmpty && isInterfaceNameB L.name
-    && L.members.all (fun p => p.1.wf && (match p.2 with
-        | .error g1 n g6 t => (LMember.alias g1 n g6 t).fits    -- any gap in front of an error's type
-        | m => m.fits))
-    && uniqueNames (L.members.map fun p => p.2.name) && L.members.any (fun p => p.2.isMethod)
-    && L.gEnd.wf && (match L.finalComment with | none => true | some t => t.all (fun c => c != 10))
+/-! ### the layouts behind an error's name: the two former counter-witnesses
 
-/-- the full statement of C05 on the model: every layout the grammar allows -/
-def ParseRenderFull : Prop := ∀ L : LIdl, fitsGrammar L = true → New L.render = .ok L.tree
+  Up to /repo a1069ea the statement without layout guards was false for idl.go (known findings of this property):
+  `readError` skipped spaces and tabs only and then called `readType`. Both witnesses now parse to the tree they
+  denote — by the theorem, and by running the model on the text in the kernel. -/
 
-/-- `error E⏎(a:int)`: a line break between an error's name and its type — rejected ("unknown keyword") -/
+/-- `error E⏎(a:int)`: a line break between an error's name and its type — was rejected ("unknown keyword") -/
 def witnessErrorTypeOnNextLine : LIdl :=
   { g0 := [], ig1 := [.sp], name := str "a.b",
     members := [([.nl], .method [.sp] (str "F") [] (.unit []) [] [] (.unit [])),
-                ([.nl], .error [.sp] (str "E") [.nl] (.unit []))],
+                ([.nl], .error [.sp] (str "E") [.nl] (.struct (.last [] (str "a") [] [] .int [])))],
+    gEnd := [.nl], finalComment := none }
+
+example : witnessErrorTypeOnNextLine.render = str "interface a.b\nmethod F()->()\nerror E\n(a:int)\n" := by
+  decide +kernel
+example : New witnessErrorTypeOnNextLine.render = .ok witnessErrorTypeOnNextLine.tree :=
+  parse_render _ (by decide +kernel)
+example : (match New witnessErrorTypeOnNextLine.render with
+    | .ok t => t.beq witnessErrorTypeOnNextLine.tree | _ => false) = true := by decide +kernel
+
+/-- … the same with a CR, a trailing comment and a comment line in that gap; the comment line is the block above
+    the line of `(`, hence above the method that follows on that line -/
+def witnessErrorTypeBehindComments : LIdl :=
+  { g0 := [], ig1 := [.sp], name := str "a.b",
+    members := [([.nl], .error [.sp] (str "E") [.cr, .comment (str " trailing"), .tab, .comment (str " c")] (.unit [])),
+                ([.sp], .method [.sp] (str "F") [] (.unit []) [] [] (.unit []))],
     gEnd := [], finalComment := none }
 
-/-- **Known finding**: the full statement fails — the type of an error on the next line is rejected. -/
-theorem parse_render_full_fails_error_type_on_next_line : ¬ ParseRenderFull := by
-  intro h
-  have h1 := h witnessErrorTypeOnNextLine (by decide +kernel)
-  have h2 : (New witnessErrorTypeOnNextLine.render).errOf = some .unknownKeyword := by decide +kernel
-  rw [h1] at h2
-  cases h2
+example : ∃ t, New witnessErrorTypeBehindComments.render = .ok t ∧ t.members.map Member.doc = [[], str "c"] :=
+  ⟨_, parse_render _ (by decide +kernel), by decide +kernel⟩
+example : (match New witnessErrorTypeBehindComments.render with
+    | .ok t => t.beq witnessErrorTypeBehindComments.tree | _ => false) = true := by decide +kernel
 
 /-- **Interface documentation**: `IDL.Doc` is the comment block at the start of the file, whatever layout (line
     breaks, comments) stands between `interface` and the interface name. -/
@@ -174,17 +206,32 @@ theorem interface_doc_witness :
     (match New witnessInterfaceDoc.render with | .ok t => t.doc | _ => [1]) = str "d" := by
   decide +kernel
 
-/-- `error E method F()->()`: a member on the line of an error without type is taken for the error's type -/
+/-- `error E method F()->()`: a member on the line of an error without type — was taken for the error's type
+    ("invalid error type") -/
 def witnessMemberBehindBareError : LIdl :=
   { g0 := [], ig1 := [.sp], name := str "a.b",
     members := [([.nl], .errorBare [.sp] (str "E")),
                 ([.sp], .method [.sp] (str "F") [] (.unit []) [] [] (.unit []))],
     gEnd := [], finalComment := none }
 
-theorem member_behind_bare_error_rejected :
-    fitsGrammar witnessMemberBehindBareError = true ∧
-    (New witnessMemberBehindBareError.render).errOf = some .invalidErrorType := by
-  constructor <;> decide +kernel
+example : witnessMemberBehindBareError.render = str "interface a.b\nerror E method F()->()" := by decide +kernel
+example : New witnessMemberBehindBareError.render = .ok witnessMemberBehindBareError.tree :=
+  parse_render _ (by decide +kernel)
+example : (match New witnessMemberBehindBareError.render with
+    | .ok t => t.beq witnessMemberBehindBareError.tree | _ => false) = true := by decide +kernel
+
+/-- an error without parameters at the very end of the input, and in front of a last comment without line feed -/
+example : New (str "interface a.b\nmethod F()->()\nerror E") =
+    .ok { name := str "a.b", doc := [], description := str "interface a.b\nmethod F()->()\nerror E",
+          members := [.method (str "F") [] (.struct .nil) (.struct .nil), .error (str "E") [] none] } :=
+  parse_render { g0 := [], ig1 := [.sp], name := str "a.b",
+                 members := [([.nl], .method [.sp] (str "F") [] (.unit []) [] [] (.unit [])),
+                             ([.nl], .errorBare [.sp] (str "E"))],
+                 gEnd := [], finalComment := none } (by decide +kernel)
+example : (New (str "interface a.b\nmethod F()->()\nerror E # c")).tag = 0 := by decide +kernel
+/-- what is not a parameter list is still not swallowed: `error E int` is an error without parameters followed by
+    the unknown keyword `int` (the varlink grammar has `error = "error" name struct`) -/
+example : (New (str "interface a.b\nmethod F()->()\nerror E int")).errOf = some .unknownKeyword := by decide +kernel
 
 /-! ### non-vacuity: a description with every constructor, comments in every kind of gap, CRLF, a last comment -/
 
@@ -197,16 +244,21 @@ def sample : LIdl :=
           (.struct (.cons [.nl, .sp] (str "a") [.sp] [.comment (str "x")] (.maybe (.array (.map .int))) [.sp]
             (.last [] (str "b_1") [] [] (.enum [.sp] (str "x") [] [([.nl], str "y", [.cr, .nl])]) [.nl])))),
       ([.cr, .nl], .method [.sp] (str "F") [] (.unit [.sp]) [.sp] [.nl] (.struct (.last [] (str "r") [] [.sp] (.named (str "T")) []))),
-      ([.nl], .errorBare [.sp] (str "E1")),
-      ([.sp, .comment (str " c"), .comment (str " the error")], .error [.sp] (str "E2") [.sp, .tab] (.unit []))],
+      ([.nl, .comment (str " e1")], .errorBare [.sp] (str "E1")),
+      -- on the line of the error without parameters: the block above that line (also for E2, directly behind `)`)
+      ([.sp], .method [.tab] (str "G") [] (.unit []) [] [] (.unit [])),
+      -- directly behind `)`, and the parameters two lines below the name, behind a trailing and a whole-line comment
+      ([], .error [.sp] (str "E2") [.sp, .comment (str " c"), .comment (str " above the parameters"), .tab]
+        (.struct (.last [] (str "a") [] [] .int []))),
+      ([.sp, .comment (str " c"), .comment (str " the error")], .error [.sp] (str "E3") [.sp, .tab] (.unit []))],
     gEnd := [.nl, .sp], finalComment := some (str " bye") }
 
 example : sample.fits = true := by decide +kernel
 example : ∃ t, New sample.render = .ok t ∧ t.doc = str "about the interface\nsecond line" ∧
-    t.members.map Member.doc = [str "doc one\ntwo", [], [], str "the error"] := by
-  refine ⟨sample.tree, parse_render_partial sample (by decide +kernel), ?_, ?_⟩ <;> decide +kernel
+    t.members.map Member.doc = [str "doc one\ntwo", [], str "e1", str "e1", str "e1", str "the error"] := by
+  refine ⟨sample.tree, parse_render sample (by decide +kernel), ?_, ?_⟩ <;> decide +kernel
 /-- the same by running the model on the rendered text in the kernel (no use of the theorem) -/
-example : (match New sample.render with | .ok t => t.members.length | _ => 0) = 4 := by decide +kernel
+example : (match New sample.render with | .ok t => t.beq sample.tree | _ => false) = true := by decide +kernel
 
 /-- **Tie to the source**: the declarations of /repo that this property's model transliterates
     (`Extracted.codeNames_C05`) have, in the current working tree, exactly the fingerprints of the code the
